@@ -191,6 +191,15 @@ def run_history(res, cfg, scratch, rng, hidx, kill_budget):
                 # a row longer than the 8 KiB text/binary buffers
                 op["p"]["tags"]["big"] = "x" * rng.choice([9000, 20000, 70000])
                 res.count("rows_longer_than_io_buffer")
+            held = None
+            if rng.random() < 0.2 and s.model.points:
+                # the application holds an iteration over the database that it has started and not finished
+                held = iter(s.db)
+                try:
+                    next(held)
+                except Exception:  # noqa: BLE001
+                    pass
+                res.count("ops_with_an_unfinished_iteration_held")
             old = [p.copy() for p in s.model.points]
             do_kill = kill_budget[0] > 0 and step >= 2 and rng.random() < 0.35 and sysmon.available()
             pre_bytes = s.file_bytes()
@@ -322,6 +331,7 @@ def finalize(res, tier):
     res.require("large_file_ops")
     res.require("histories_through_a_symlink")
     res.require("mixed_exact_and_scan_queries")
+    res.require("ops_with_an_unfinished_iteration_held")
     if sysmon.available():
         res.require("kill.crash_points")
 
